@@ -254,3 +254,167 @@ Proof. intros H. rewrite header_verdict_spec. unfold header_spec, negotiation_he
 
 Corollary header_split_within_cap eoh buflen : 0 <= eoh <= 4096 -> header_verdict eoh buflen = 2.
 Proof. intros H. rewrite header_verdict_spec. unfold header_spec, negotiation_header_cap, negotiation_noterm_slack. zcases; try reflexivity; lia. Qed.
+
+(* ------------------------------------------------------------------ *)
+(* Round 5: the decider for ANY two endpoints, "exactly when", the kind of failure, a misbehaving decider *)
+
+Lemma str_ltb_eq_false a b : str_ltb a b = false -> str_ltb b a = false -> a = b.
+Proof.
+  intros H1 H2. destruct (list_eq_dec Z.eq_dec a b) as [E|N]; [exact E|].
+  destruct (str_ltb_total _ _ N) as [H|H]; congruence.
+Qed.
+
+(* never two deciders; none exactly when the two ids are equal (both ends then wait for a decision that nobody sends, and the
+   attempt ends by the negotiation timeout) *)
+Theorem decider_count a b :
+  masters a b = (if list_eqb (ep_id a) (ep_id b) then 0 else 1)%nat.
+Proof.
+  destruct (list_eqb (ep_id a) (ep_id b)) eqn:E.
+  - apply list_eqb_eq in E. unfold masters, i_am_master, master_cmp, cmp_eval. rewrite E, str_ltb_irrefl. reflexivity.
+  - apply one_decider. intros H. apply list_eqb_eq in H. congruence.
+Qed.
+
+Theorem no_decider_iff_equal_ids a b : masters a b = 0%nat <-> ep_id a = ep_id b.
+Proof.
+  rewrite decider_count. destruct (list_eqb (ep_id a) (ep_id b)) eqn:E.
+  - apply list_eqb_eq in E. split; auto.
+  - split; [discriminate|]. intros H. apply list_eqb_eq in H. congruence.
+Qed.
+
+Theorem equal_ids_both_fail a b : ep_id a = ep_id b -> exists w, negotiate a b = (Failed w, Failed w).
+Proof.
+  intros E. unfold negotiate, i_am_master, master_cmp, cmp_eval. rewrite E, str_ltb_irrefl. eexists; reflexivity.
+Qed.
+
+(* the class invariant asserted by Negotiation.__init__: every version of the own range has its accept method *)
+Definition implements_own_range (e : endpoint) : Prop :=
+  forall v, ep_vmin e <= v <= ep_vmax e -> ep_accepts e v = true.
+
+Definition compatible (m s : endpoint) : Prop :=
+  (exists v, in_range (ep_vmin m) (ep_vmax m) v /\ in_range (ep_vmin s) (ep_vmax s) v) /\
+  (exists i, in_range (ep_vocmin m) (ep_vocmax m) i /\ in_range (ep_vocmin s) (ep_vocmax s) i /\
+             (forall j, in_range (ep_vocmin m) (ep_vocmax m) j -> in_range (ep_vocmin s) (ep_vocmax s) j -> j <= i) /\
+             (hash_checked_from_index <= i -> ep_hash m i = ep_hash s i)).
+
+Lemma compatible_sym m s : compatible m s -> compatible s m.
+Proof.
+  intros ((v & H1 & H2) & (i & H3 & H4 & H5 & H6)). split; [exists v; auto|].
+  exists i. split; [exact H4|split; [exact H3|split; [intros j Ha Hb; apply H5; assumption|intros H; symmetry; auto]]].
+Qed.
+
+Definition negotiation_error (t : string) : Prop :=
+  t = "NegotiationError"%string \/ t = "RemoteNegotiationError"%string \/ t = "peer-hung-up"%string.
+
+(* the asymmetric core, exactly: with the class invariant, the run succeeds exactly when the two are compatible, and every
+   failure is a negotiation error (never the AttributeError of a missing accept method) *)
+Lemma run_exact m s :
+  implements_own_range s ->
+  let r := match eval_hello s m with
+   | Exc t => (Failed "peer-hung-up", Failed t)
+   | Ok _ =>
+     match master_decide m s with
+     | Exc t => (Failed t, Failed "RemoteNegotiationError")
+     | Ok d =>
+       match slave_accept s d with
+       | Exc t => (Failed "peer-hung-up", Failed t)
+       | Ok p => (Banana {| p_version := d_version d; p_vocab := d_vocab d |}, Banana p)
+       end
+     end
+   end in
+  (compatible m s -> exists p, r = (Banana p, Banana p)) /\
+  (~ compatible m s -> exists w1 w2, r = (Failed w1, Failed w2) /\ negotiation_error w1 /\ negotiation_error w2).
+Proof.
+  intros Inv. cbv zeta. unfold negotiation_error.
+  assert (Tag : forall a b c d t, best_overlap a b c d = Exc t -> t = "NegotiationError"%string).
+  { intros a b c d t. unfold best_overlap. cbv zeta.
+    destruct (Z.ltb _ _); [intros E; inversion E; reflexivity|]. destruct (Z.ltb _ _); intros E; inversion E; reflexivity. }
+  assert (TagC : forall a b c t, check_inrange a b c = Exc t -> t = "NegotiationError"%string).
+  { intros a b c t. unfold check_inrange. destruct (orb _ _); intros E; inversion E; reflexivity. }
+  destruct (eval_hello s m) as [v0|t0] eqn:Eh.
+  2:{ split.
+      - intros ((v & Hm & Hs) & _). exfalso. unfold eval_hello in Eh.
+        assert (X : exists t, best_overlap (ep_vmin s) (ep_vmax s) (ep_vmin m) (ep_vmax m) = Exc t) by eauto.
+        pose proof (proj1 (best_overlap_exc _ _ _ _) X) as X'. apply (X' v). unfold in_range in *. lia.
+      - intros _. do 2 eexists. split; [reflexivity|]. split; [auto|]. left. eapply Tag. exact Eh. }
+  unfold master_decide. destruct (eval_hello m s) as [ver|t1] eqn:Em.
+  2:{ exfalso. unfold eval_hello in *. apply best_overlap_sym in Eh. congruence. }
+  unfold eval_hello in Em, Eh. pose proof (best_overlap_common _ _ _ _ _ Em) as (Vm & Vs & Vmax).
+  destruct (best_overlap (ep_vocmin m) (ep_vocmax m) (ep_vocmin s) (ep_vocmax s)) as [idx|t2] eqn:Ev.
+  2:{ split.
+      - intros (_ & (i & Hm & Hs & _)). exfalso.
+        assert (X : exists t, best_overlap (ep_vocmin m) (ep_vocmax m) (ep_vocmin s) (ep_vocmax s) = Exc t) by eauto.
+        pose proof (proj1 (best_overlap_exc _ _ _ _) X) as X'. apply (X' i). unfold in_range in *. lia.
+      - intros _. do 2 eexists. split; [reflexivity|]. split; [left; eapply Tag; exact Ev|auto]. }
+  pose proof (best_overlap_common _ _ _ _ _ Ev) as (Im & Is & Imax).
+  unfold slave_accept; cbn [d_version d_vocab d_hash].
+  rewrite (Inv ver) by (unfold in_range in Vs; lia). cbn [negb].
+  pose proof (proj2 (check_inrange_ok (ep_vocmin s) (ep_vocmax s) idx) Is) as Ec. rewrite Ec.
+  destruct ((hash_checked_from_index <=? idx) && negb (ep_hash s idx =? ep_hash m idx)) eqn:Eg.
+  - apply andb_true_iff in Eg as [G1 G2]. apply Z.leb_le in G1. apply negb_true_iff, Z.eqb_neq in G2. split.
+    + intros (_ & (i & Hm & Hs & Hmax & Hh)). exfalso.
+      assert (i = idx) by (apply Z.le_antisymm; [apply Imax; assumption|apply Hmax; assumption]). subst i.
+      apply G2. symmetry. apply Hh. exact G1.
+    + intros _. do 2 eexists. split; [reflexivity|]. auto.
+  - split.
+    + intros _. eexists; reflexivity.
+    + intros NC. exfalso. apply NC. split; [exists ver; split; assumption|].
+      exists idx. split; [exact Im|split; [exact Is|split; [exact Imax|]]].
+      intros Hi. apply andb_false_iff in Eg as [Eg|Eg]; [apply Z.leb_gt in Eg; lia|].
+      apply negb_false_iff, Z.eqb_eq in Eg. congruence.
+Qed.
+
+(* "either both switch ... or both abandon the connection with a negotiation error", exactly when: for every two endpoints
+   with distinct ids that satisfy the class invariant, both get the same parameters iff the ranges meet and the table
+   chosen has the same hash on both sides; otherwise both fail, each with a negotiation error *)
+Theorem agreement_exact a b :
+  ep_id a <> ep_id b -> implements_own_range a -> implements_own_range b ->
+  (compatible a b -> exists p, negotiate a b = (Banana p, Banana p) /\ agreed a b p) /\
+  (~ compatible a b -> exists w1 w2, negotiate a b = (Failed w1, Failed w2) /\ negotiation_error w1 /\ negotiation_error w2).
+Proof.
+  intros Hne Ia Ib.
+  assert (Ag : forall p, negotiate a b = (Banana p, Banana p) -> agreed a b p).
+  { intros p E. destruct (agreement a b _ _ Hne E) as [(q & E1 & _ & Hq)|(w1 & w2 & E1 & _)]; [inversion E1; subst; exact Hq|discriminate]. }
+  unfold negotiate in *.
+  destruct (i_am_master (ep_id a) (ep_id b)) eqn:Ma.
+  - pose proof (run_exact a b Ib) as [R1 R2]. split.
+    + intros C. destruct (R1 C) as (p & E). exists p. split; [exact E|apply Ag; exact E].
+    + intros NC. exact (R2 NC).
+  - destruct (i_am_master (ep_id b) (ep_id a)) eqn:Mb.
+    + pose proof (run_exact b a Ia) as [R1 R2]. cbv zeta in R1, R2. split.
+      * intros C. destruct (R1 (compatible_sym _ _ C)) as (p & E). exists p.
+        assert (E' : (let '(ob, oa) := (Banana p, Banana p) in (oa, ob)) = (Banana p, Banana p)) by reflexivity.
+        rewrite E in Ag |- *. split; [reflexivity|apply Ag; reflexivity].
+      * intros NC. destruct R2 as (w1 & w2 & E & N1 & N2); [intros C; apply NC; apply compatible_sym; exact C|].
+        rewrite E. exists w2, w1. auto.
+    + pose proof (one_decider a b Hne) as H1. unfold masters in H1. rewrite Ma, Mb in H1. discriminate.
+Qed.
+
+(* the non-decider checks the decided version only against the accept methods it HAS, not against the range it offered nor
+   against the version it computed itself from the decider's hello: a decider that does not follow the protocol can make it
+   run a version outside its own range (the class has acceptDecisionVersion1..3 while minVersion = maxVersion = 3) *)
+Theorem slave_checks_own_range_refuted :
+  exists s d p, implements_own_range s /\ ~ in_range (ep_vmin s) (ep_vmax s) (d_version d) /\ slave_accept s d = Ok p /\ p_version p = d_version d.
+Proof.
+  exists {| ep_id := [97]; ep_vmin := 3; ep_vmax := 3; ep_vocmin := 0; ep_vocmax := 1; ep_hash := fun i => i * 7;
+            ep_accepts := fun v => (1 <=? v) && (v <=? 3) |},
+         {| d_version := 1; d_vocab := 1; d_hash := 7 |}.
+  eexists. split; [|split; [|split; [vm_compute; reflexivity|reflexivity]]].
+  - intros v Hv. cbn in *. assert (v = 3) by lia. subst. reflexivity.
+  - unfold in_range. cbn. lia.
+Qed.
+
+(* ... whereas what an honest decider sends is always inside the non-decider's own range *)
+Theorem honest_decision_in_range m s d :
+  master_decide m s = Ok d -> in_range (ep_vmin s) (ep_vmax s) (d_version d) /\ in_range (ep_vocmin s) (ep_vocmax s) (d_vocab d).
+Proof.
+  unfold master_decide, eval_hello. destruct (best_overlap (ep_vmin m) _ _ _) as [ver|] eqn:E1; [|discriminate].
+  destruct (best_overlap (ep_vocmin m) _ _ _) as [idx|] eqn:E2; [|discriminate]. intros E; inversion E; subst; cbn.
+  apply best_overlap_common in E1, E2. destruct E1 as (_ & ? & _), E2 as (_ & ? & _). split; assumption.
+Qed.
+
+Example compatible_example : compatible ex_a ex_b /\ implements_own_range ex_a /\ implements_own_range ex_b /\ ep_id ex_a <> ep_id ex_b.
+Proof.
+  split; [|split; [intros v _; reflexivity|split; [intros v _; reflexivity|discriminate]]].
+  split; [exists 3; unfold in_range; cbn; lia|]. exists 1. unfold in_range; cbn.
+  split; [lia|split; [lia|split; [intros j; lia|reflexivity]]].
+Qed.
